@@ -79,6 +79,7 @@ class Ctx:
         self.cur_rule = None
         self.analysed = {}
         self.assumptions = set()
+        self.pid = None      # the property the rules are run for (a rule may narrow its scope to it)
 
     # ---- front ends (lazy) -------------------------------------------------------------------
     def cxx(self, config=None):
@@ -180,6 +181,7 @@ def run_property(pid, rules, tier, explanation, declined, configs=None, replay=N
     try:
         for cfg in configs:
             ctx = Ctx(tier, cfg)
+            ctx.pid = pid
             for rid in rules:
                 info = RULES.get(rid)
                 if info is None:
